@@ -270,6 +270,56 @@ def job_for_replay(job):
     return j
 
 
+def cfg_stats(fn):
+    """(has multi-entry loop, has phi, has recover) - used only to report what the corpus exercised."""
+    n = len(fn["blocks"])
+    succs = [[x - 1 for x in b["succs"] if 1 <= x <= n] for b in fn["blocks"]]
+    if fn["recover"] and n:
+        succs[0] = succs[0] + [fn["recover"] - 1]
+    # iterative dominators
+    dom = [set(range(n)) for _ in range(n)]
+    if n:
+        dom[0] = {0}
+    preds = [[] for _ in range(n)]
+    for u in range(n):
+        for v in succs[u]:
+            preds[v].append(u)
+    changed = True
+    while changed:
+        changed = False
+        for v in range(1, n):
+            ps = [dom[p] for p in preds[v]]
+            nd = (set.intersection(*ps) if ps else set()) | {v}
+            if nd != dom[v]:
+                dom[v], changed = nd, True
+    # retreating edges of a DFS whose target does not dominate the source
+    color, irreducible = [0] * n, False
+    stack = [(0, iter(succs[0]))] if n else []
+    if n:
+        color[0] = 1
+    while stack:
+        u, it = stack[-1]
+        for v in it:
+            if color[v] == 0:
+                color[v] = 1
+                stack.append((v, iter(succs[v])))
+                break
+            if color[v] == 1 and v not in dom[u]:
+                irreducible = True
+        else:
+            color[u] = 2
+            stack.pop()
+    has_phi = any(x["op"] == "Phi" for b in fn["blocks"] for x in b["instrs"])
+    return irreducible, has_phi, bool(fn["recover"])
+
+
+ESSENTIAL_KINDS = ["Alloc", "Phi", "Load", "Store", "BinOp", "UnOp", "Call", "Go", "Defer", "ChangeType", "Convert",
+                   "MultiConvert", "ChangeInterface", "SliceToArrayPointer", "SliceToArray", "MakeInterface", "MakeClosure",
+                   "MakeMap", "MakeChan", "MakeSlice", "Slice", "FieldAddr", "Field", "IndexAddr", "Index", "MapLookup",
+                   "Range", "Next", "TypeAssert", "Extract", "If", "Jump", "Return", "Panic", "Unreachable", "Send", "Recv",
+                   "MapUpdate", "Select", "TypeSwitch", "ConstantSwitch", "DebugRef", "RunDefers", "BlankStore", "CompositeValue"]
+
+
 # ---------------------------------------------------------------------------------------------
 # negative self-test of the binding
 # ---------------------------------------------------------------------------------------------
@@ -467,9 +517,7 @@ def run(ctx):
     runs = vlib.pmap(lambda b: tlc_report(ctx, b, wk), batches, workers=nproc)
     th.join()
     print("TLC: %d batches in %.1fs" % (len(batches), time.time() - t1), flush=True)
-    if "err" in neg:
-        raise neg["err"]
-    caught, clean_fail = neg["res"]
+    caught, clean_fail = neg.get("res", ([], None))
 
     # index documents lazily for failure reporting
     states = sum(r.distinct for r in runs)
@@ -540,8 +588,31 @@ def run(ctx):
         if n_viol >= 25:
             ctx.note("stopping after 25 distinct violations (%d distinct failure shapes)" % len(groups))
             break
+    if "err" in neg:
+        if not groups:
+            raise neg["err"]
+        # the self-test corrupts functions of the tree under test; on a tree whose functions already
+        # fail conjuncts it can be unusable - the violations above stand on their own
+        ctx.note("negative self-test not usable on this tree: %s" % str(neg["err"])[:300])
     if clean_fail and not groups:
         raise Inconclusive("strict configuration rejects %s (%s) although report mode lists nothing" % (clean_fail["fn"], clean_fail["conj"]))
+
+    # what the corpus exercised (vacuity guard)
+    missing_kinds = [k for k in ESSENTIAL_KINDS if not ops.get(k)]
+    n_irred = n_phi = n_recover = 0
+    for line in lines:
+        if '"job":"gen' not in line[:200]:
+            continue
+        for f in json.loads(line)["fns"]:
+            irr, ph, rec = cfg_stats(f)
+            n_irred += irr
+            n_phi += ph
+            n_recover += rec
+    if not ctx.quick and (missing_kinds or not n_irred or not n_phi or not n_recover):
+        raise Inconclusive("vacuity: the thorough corpus lacks instruction kinds %s / irreducible=%d phi=%d recover=%d"
+                           % (missing_kinds, n_irred, n_phi, n_recover))
+    if ctx.quick and (not n_irred or not n_phi or not n_recover):
+        raise Inconclusive("vacuity: generated programs exercised irreducible=%d phi=%d recover=%d functions" % (n_irred, n_phi, n_recover))
 
     # evidence
     smp = []
@@ -568,6 +639,10 @@ def run(ctx):
         "per_corpus": per_corpus,
         "functions_per_mode": dict(sorted(modes_seen.items())),
         "instructions_by_kind": dict(sorted(ops.items(), key=lambda kv: -kv[1])),
+        "instruction_kinds_not_exercised": missing_kinds,
+        "generated_functions_with_irreducible_cfg": n_irred,
+        "generated_functions_with_phi": n_phi,
+        "generated_functions_with_recover_block": n_recover,
         "skipped_large_functions": n_big,
         "size_cap": {"blocks": MAX_BLOCKS, "instrs": MAX_INSTRS},
         "packages_not_type_correct": skipped_jobs[:40],
